@@ -19,7 +19,8 @@
     it after every step except [ATape], so along a history whose [ATape]
     operations (if any) set the empty tape this is part of the invariant
     [AInvT]. *)
-From DD Require Export Sift10.
+From DD Require Export Sift10 Dynamic2.
+From DD Require Import C01proof.
 Local Open Scope string_scope.
 
 Definition is_areorder (o : aop) : bool :=
@@ -43,11 +44,6 @@ Proof.
   - destruct o; try discriminate Ha.
     by apply (run_aop_reorder_notape w order a r a' HA (Ht eq_refl)).
 Qed.
-
-(** a reordering with an empty tape never fails with the oracle error, and
-    the others never do *)
-Lemma AInv_tape_irrel a t : AInv a → AInv (a <| mgr := (mgr a) <| tape := t |> |>).
-Proof. apply AInv_tape. Qed.
 
 (** ** One step of the driver *)
 Theorem astep_AInv2 w m o :
@@ -131,4 +127,268 @@ Proof.
   induction ops as [|o ops IH]; intros w m Hh Hf; [done|].
   destruct Hh as (Ha&Hc&Hh). apply Forall_cons in Hf as [Ht Hf].
   split; [unfold a_allowed2; by rewrite Ha|]. split; [done|]. split; [done|]. by apply IH.
+Qed.
+
+(** ** Dynamic reordering ENABLED.
+
+    [AInvD]: [AInv] without "requests are off" ([last_len] is arbitrary),
+    plus "not inside a reordering context" (true between two calls).  A
+    decorated method may now sift in the middle; its operands are handles,
+    hence HELD ([heldn (hledger a)]), so [Dynamic]/[Dynamic2] apply with
+    [Sift9.sifting_ok'_holds].  Every statement is up to the oracle error
+    [EOracle] of the model (no Python counterpart). *)
+Definition AInvD (a : ast) : Prop :=
+  Inv (mgr a) ∧ rctx (mgr a) = false ∧ Counts (mgr a) (hledger a) ∧
+  (∀ h u, handles a !! h = Some u → valid (mgr a) u) ∧
+  (∀ h u, handles a !! h = Some u → h < next_hid a).
+
+Lemma AInvD_of_AInv a : AInv a → rctx (mgr a) = false → AInvD a.
+Proof. intros (?&_&?&?&?) ?. by split_and!. Qed.
+Lemma AInv_of_AInvD a : AInvD a → last_len (mgr a) = None → AInv a.
+Proof. intros (?&_&?&?&?) ?. by split_and!. Qed.
+
+(** every live handle survives with its node and its function *)
+Definition AKeepAll (a a' : ast) : Prop :=
+  ∀ h u, handles a !! h = Some u →
+    handles a' !! h = Some u ∧ valid (mgr a') u ∧
+    ∀ ρ, denv (mgr a') u ρ = denv (mgr a) u ρ.
+
+(** the conclusion of the [*_dynamic] theorems, for the wrapped manager *)
+Definition dyn_post (a : ast) (P : Z → st → Prop) (r0 : res Z) (s' : st) : Prop :=
+  r0 = Err EOracle ∨
+  ∃ x, r0 = Ok x ∧ Inv s' ∧ Counts s' (hledger a) ∧ rctx s' = false ∧
+       (last_len (mgr a) = None → last_len s' = None) ∧
+       (is_Some (last_len (mgr a)) → is_Some (last_len s')) ∧
+       keeps (heldn (hledger a)) (mgr a) s' ∧ valid s' x ∧ P x s'.
+
+(** the outcome of a decorated method: the oracle error, or a new handle
+    [next_hid a] on the result; the invariant holds, every other handle keeps
+    its function, the reordering mode is kept *)
+Definition dyn_out (a : ast) (P : Z → st → Prop) (r : res nat) (a' : ast) : Prop :=
+  r = Err EOracle ∨
+  (r = Ok (next_hid a) ∧ AInvD a' ∧ AKeepAll a a' ∧
+   (last_len (mgr a) = None → last_len (mgr a') = None) ∧
+   (is_Some (last_len (mgr a)) → is_Some (last_len (mgr a'))) ∧
+   next_hid a' = S (next_hid a) ∧
+   ∃ x, handles a' = <[next_hid a := x]> (handles a) ∧ valid (mgr a') x ∧ P x (mgr a')).
+
+Definition stableP (P : Z → st → Prop) : Prop :=
+  ∀ x s1 s2, succ s2 = succ s1 → vars s2 = vars s1 → lvl2var s2 = lvl2var s1 →
+    P x s1 → P x s2.
+Lemma stable_eq (F : (nat → bool) → bool) :
+  stableP (fun x s => ∀ ρ, denv s x ρ = F ρ).
+Proof. intros x s1 s2 E1 E2 E3 H ρ. by rewrite (denv_same s1 s2). Qed.
+Lemma stable_iff (Q : (nat → bool) → Prop) :
+  stableP (fun x s => ∀ ρ, denv s x ρ = true ↔ Q ρ).
+Proof. intros x s1 s2 E1 E2 E3 H ρ. by rewrite (denv_same s1 s2). Qed.
+
+Lemma held_handle a h u : handles a !! h = Some u → heldn (hledger a) (absn u).
+Proof. intros Hu. right. by apply (hl_pos _ h). Qed.
+
+Lemma lift_wrap_dyn (m : MS Z) P a r a' :
+  AInvD a → stableP P → (∀ r0 s', m (mgr a) = (r0, s') → dyn_post a P r0 s') →
+  (x <- lift m ;; wrap x) a = (r, a') → dyn_out a P r a'.
+Proof.
+  intros (HI&Hr&HC&Hv&Hf) HP Hm. unfold bind at 1. unfold lift at 1.
+  destruct (m (mgr a)) as [r0 s'] eqn:E.
+  destruct (Hm _ _ eq_refl) as [->|(x&->&HI'&HC'&Hr'&Hl1&Hl2&[_ Hk]&Hx&HPx)].
+  { intros [= <- <-]. by left. }
+  unfold wrap. cbn [bind get]. change (mgr (a <| mgr := s' |>)) with s'.
+  rewrite (proj2 (mem_valid _ _) Hx). cbn [ensure bind ret]. unfold bind at 1. unfold lift.
+  change (mgr (a <| mgr := s' |>)) with s'. rewrite (incref_ok s' x HI' Hx).
+  cbn [bind modify ret]. intros [= <- <-]. right.
+  assert (Hk' : ∀ h u, handles a !! h = Some u →
+            valid s' u ∧ ∀ ρ, denv s' u ρ = denv (mgr a) u ρ).
+  { intros h u Hu. pose proof (Hv h u Hu) as Hu0.
+    apply Hk; [apply Hu0|by apply (held_handle a h)|done]. }
+  assert (Hfresh : handles a !! next_hid a = None).
+  { destruct (handles a !! next_hid a) as [y|] eqn:Ey; [|done]. specialize (Hf _ _ Ey). lia. }
+  split; [done|]. split; [|split; [|split; [done|split; [done|split; [done|]]]]].
+  - split; [by apply Inv_bump|]. split; [done|]. split.
+    { apply (Counts_ext _ (ledger_inc (hl (handles a)) (absn x))).
+      + intros n. unfold hledger. cbn. by rewrite hl_insert.
+      + by apply Counts_bump. }
+    split.
+    + intros h u. cbn. intros Hu. apply lookup_insert_Some in Hu as [[_ <-]|[_ Hu]].
+      * exact Hx.
+      * exact (proj1 (Hk' h u Hu)).
+    + intros h u. cbn. intros Hu. apply lookup_insert_Some in Hu as [[<- _]|[_ Hu]]; [lia|].
+      specialize (Hf h u Hu). lia.
+  - intros h u Hu. destruct (Hk' h u Hu) as [Hu' HD]. cbn. split.
+    + rewrite lookup_insert_ne; [done|]. specialize (Hf h u Hu). lia.
+    + split; [exact Hu'|]. intros ρ. rewrite <- HD. by apply denv_same.
+  - exists x. split; [done|]. split; [exact Hx|]. by apply (HP x s').
+Qed.
+
+(** running the prefix of a method: the handles are looked up, and a live
+    handle always passes the membership check *)
+Lemma node_of_bind {B} h (k : Z → MA B) a :
+  (u <- node_of h ;; k u) a =
+  match handles a !! h with Some u => k u a | None => (Err EKey, a) end.
+Proof.
+  pose proof (node_of_run h a) as N. destruct (handles a !! h).
+  - by rewrite (bind_ok _ _ _ _ _ N).
+  - by rewrite (bind_err _ _ _ _ _ N).
+Qed.
+Lemma onode_of_bind {B} ho (k : option Z → MA B) a :
+  (v <- onode_of ho ;; k v) a =
+  match ho with
+  | None => k None a
+  | Some h => match handles a !! h with Some v => k (Some v) a | None => (Err EKey, a) end
+  end.
+Proof.
+  destruct ho as [h|]; [|done]. unfold onode_of. rewrite Cofactor.bind_assoc, node_of_bind.
+  by destruct (handles a !! h).
+Qed.
+Lemma check_in_bind {B} u (k : MA B) a : valid (mgr a) u → (check_in u ;;; k) a = k a.
+Proof.
+  intros Hu. unfold check_in, bind, get. by rewrite (proj2 (mem_valid _ _) Hu).
+Qed.
+
+(** *** [bdd.var(name)] *)
+Theorem a_var_dyn v a r a' :
+  AInvD a → is_Some (vars (mgr a) !! v) → a_var v a = (r, a') →
+  dyn_out a (fun x s' => ∀ ρ, denv s' x ρ = ρ v) r a'.
+Proof.
+  intros HA Hd. apply lift_wrap_dyn; [done|apply (stable_eq (fun ρ => ρ v))|].
+  intros r0 s' E. destruct HA as (HI&Hr&HC&_).
+  exact (var_dynamic _ _ v r0 s' sifting_ok'_holds HI HC Hr Hd E).
+Qed.
+
+(** *** [bdd.ite(g, u, v)]: a dead handle is a [KeyError] before anything *)
+Theorem a_ite_dyn hg hu hv a r a' :
+  AInvD a → a_ite hg hu hv a = (r, a') →
+  (r = Err EKey ∧ a' = a ∧
+   (handles a !! hg = None ∨ handles a !! hu = None ∨ handles a !! hv = None)) ∨
+  ∃ g u v, handles a !! hg = Some g ∧ handles a !! hu = Some u ∧ handles a !! hv = Some v ∧
+    dyn_out a (fun x s' => ∀ ρ, denv s' x ρ =
+                 if denv (mgr a) g ρ then denv (mgr a) u ρ else denv (mgr a) v ρ) r a'.
+Proof.
+  intros HA. pose proof HA as (HI&Hr&HC&Hv&_). unfold a_ite. rewrite node_of_bind.
+  destruct (handles a !! hg) as [g|] eqn:Eg; [|intros [= <- <-]; left; auto].
+  rewrite check_in_bind by (by apply (Hv hg)). rewrite node_of_bind.
+  destruct (handles a !! hu) as [u|] eqn:Eu; [|intros [= <- <-]; left; auto].
+  rewrite check_in_bind by (by apply (Hv hu)). rewrite node_of_bind.
+  destruct (handles a !! hv) as [v|] eqn:Ev; [|intros [= <- <-]; left; auto].
+  rewrite check_in_bind by (by apply (Hv hv)). intros H. right. exists g, u, v.
+  split; [done|]. split; [done|]. split; [done|]. revert H.
+  apply lift_wrap_dyn; [done|apply (stable_eq (fun ρ => if denv (mgr a) g ρ then _ else _))|].
+  intros r0 s' E.
+  exact (ite_dynamic _ _ g u v r0 s' sifting_ok'_holds HI HC Hr (Hv _ _ Eg) (Hv _ _ Eu)
+           (Hv _ _ Ev) (held_handle a _ _ Eg) (held_handle a _ _ Eu) (held_handle a _ _ Ev) E).
+Qed.
+
+(** *** [bdd.quantify(u, qvars, forall)], [bdd.exist], [bdd.forall] *)
+Theorem a_quantify_dyn hu qvars fa a r a' :
+  AInvD a → Forall (fun k => is_Some (vars (mgr a) !! k)) qvars →
+  a_quantify hu qvars fa a = (r, a') →
+  (r = Err EKey ∧ a' = a ∧ handles a !! hu = None) ∨
+  ∃ u, handles a !! hu = Some u ∧
+    dyn_out a (fun x s' => ∀ ρ, denv s' x ρ = true ↔
+                 qsemv (mgr a) fa (list_to_set qvars) u ρ) r a'.
+Proof.
+  intros HA Hq. pose proof HA as (HI&Hr&HC&Hv&_). unfold a_quantify. rewrite node_of_bind.
+  destruct (handles a !! hu) as [u|] eqn:Eu; [|intros [= <- <-]; left; auto].
+  rewrite check_in_bind by (by apply (Hv hu)). intros H. right. exists u. split; [done|].
+  revert H. apply lift_wrap_dyn; [done|apply stable_iff|]. intros r0 s' E.
+  exact (quantify_dynamic _ _ u qvars fa r0 s' sifting_ok'_holds HI HC Hr (Hv _ _ Eu)
+           (held_handle a _ _ Eu) Hq E).
+Qed.
+
+(** *** [bdd.cube(dvars)] *)
+Theorem a_cube_dyn d a r a' :
+  AInvD a → Forall (fun p => is_Some (vars (mgr a) !! p.1)) d →
+  a_cube d a = (r, a') →
+  dyn_out a (fun x s' => ∀ ρ, denv s' x ρ = true ↔ ∀ v b, (v, b) ∈ d → ρ v = b) r a'.
+Proof.
+  intros HA Hd. apply lift_wrap_dyn; [done|apply stable_iff|].
+  intros r0 s' E. destruct HA as (HI&Hr&HC&_).
+  exact (cube_dynamic _ _ d r0 s' sifting_ok'_holds HI HC Hr Hd E).
+Qed.
+
+(** *** [bdd.apply(op, u, v, w)] and the operators of [Function]
+    ([~u], [u & v], ...): a connective of the vocabulary with its arity *)
+
+(** the optional operand handles, looked up *)
+Definition olook (a : ast) (ho : option nat) (vo : option Z) : Prop :=
+  match ho, vo with
+  | None, None => True
+  | Some h, Some v => handles a !! h = Some v
+  | _, _ => False
+  end.
+
+Lemma olook_valid a ho vo : AInvD a → olook a ho vo → ovalid (mgr a) vo ∧ oref (hledger a) vo.
+Proof.
+  intros (_&_&_&Hv&_). destruct ho as [h|], vo as [v|]; try done. cbn.
+  intros Hh. split; [by apply (Hv h)|by apply (held_handle a h)].
+Qed.
+
+Lemma arity_ok_None_Some op w : arity_ok op None (Some w) = false.
+Proof.
+  unfold arity_ok. repeat case_bool_decide; try done; naive_solver.
+Qed.
+
+Theorem f_apply_dyn op hu hv a r a' f u v :
+  AInvD a → handles a !! hu = Some u → olook a hv v →
+  op ∈ py_vocab → conn_sem op = Some f → arity_ok op v None = true →
+  f_apply op hu hv a = (r, a') →
+  dyn_out a (fun x s' => ∀ ρ, denv s' x ρ =
+               f (denv (mgr a) u ρ) (odenv (mgr a) v ρ) false) r a'.
+Proof.
+  intros HA Eu Ev Hop Hf Har. pose proof HA as (HI&Hr&HC&Hv&_).
+  destruct (olook_valid a hv v HA Ev) as [Hvv Hvr].
+  unfold f_apply. rewrite node_of_bind, Eu, onode_of_bind.
+  assert (Hrun : ∀ H : dyn_out a (fun x s' => ∀ ρ, denv s' x ρ =
+               f (denv (mgr a) u ρ) (odenv (mgr a) v ρ) false) r a' → Prop, True) by done.
+  clear Hrun.
+  assert (Hgo : (r0 ← lift (apply op u v None);; wrap r0) a = (r, a') →
+    dyn_out a (fun x s' => ∀ ρ, denv s' x ρ =
+               f (denv (mgr a) u ρ) (odenv (mgr a) v ρ) false) r a').
+  { apply lift_wrap_dyn; [done|apply (stable_eq (fun ρ => f _ _ false))|]. intros r0 s' E.
+    exact (apply_dynamic _ _ op u v None r0 s' f sifting_ok'_holds HI HC Hr Hop Hf
+             (Hv _ _ Eu) Hvv I Har (held_handle a _ _ Eu) Hvr I E). }
+  destruct hv as [h|], v as [v|]; try done. cbn in Ev. by rewrite Ev.
+Qed.
+
+Theorem a_apply_dyn op hu hv hw a r a' f u v w :
+  AInvD a → handles a !! hu = Some u → olook a hv v → olook a hw w →
+  op ∈ py_vocab → conn_sem op = Some f → arity_ok op v w = true →
+  a_apply op hu hv hw a = (r, a') →
+  dyn_out a (fun x s' => ∀ ρ, denv s' x ρ =
+               f (denv (mgr a) u ρ) (odenv (mgr a) v ρ) (odenv (mgr a) w ρ)) r a'.
+Proof.
+  intros HA Eu Ev Ew Hop Hf Har. pose proof HA as (HI&Hr&HC&Hv&_).
+  destruct (olook_valid a hv v HA Ev) as [Hvv Hvr].
+  destruct (olook_valid a hw w HA Ew) as [Hwv Hwr].
+  assert (Hgo : (r0 ← lift (apply op u v w);; wrap r0) a = (r, a') →
+    dyn_out a (fun x s' => ∀ ρ, denv s' x ρ =
+               f (denv (mgr a) u ρ) (odenv (mgr a) v ρ) (odenv (mgr a) w ρ)) r a').
+  { apply lift_wrap_dyn; [done|apply (stable_eq (fun ρ => f _ _ _))|]. intros r0 s' E.
+    exact (apply_dynamic _ _ op u v w r0 s' f sifting_ok'_holds HI HC Hr Hop Hf
+             (Hv _ _ Eu) Hvv Hwv Har (held_handle a _ _ Eu) Hvr Hwr E). }
+  unfold a_apply. rewrite node_of_bind, Eu. rewrite check_in_bind by (by apply (Hv hu)).
+  destruct hv as [h1|], v as [v|]; try done; destruct hw as [h2|], w as [w|]; try done;
+    cbn in Ev, Ew, Hvv, Hwv.
+  - cbn [bind ret]. rewrite onode_of_bind, Ev. rewrite check_in_bind by done.
+    rewrite onode_of_bind, Ew. by rewrite check_in_bind by done.
+  - cbn [bind ret]. rewrite onode_of_bind, Ev. rewrite check_in_bind by done.
+    rewrite onode_of_bind. done.
+  - by rewrite arity_ok_None_Some in Har.
+  - cbn [bind ret]. rewrite onode_of_bind. cbn [bind ret]. rewrite onode_of_bind. done.
+Qed.
+
+(** a call that [apply] rejects (unknown operator, wrong arity) is a
+    [ValueError] and nothing changes *)
+Theorem f_apply_rejected op hu hv a r a' u v :
+  handles a !! hu = Some u → olook a hv v →
+  arity_ok op v None = false ∨ find_template apply_table op = None →
+  f_apply op hu hv a = (r, a') →
+  r = Err EValue ∧ mgr a' = mgr a ∧ handles a' = handles a ∧ next_hid a' = next_hid a.
+Proof.
+  intros Eu Ev Hrej. unfold f_apply. rewrite node_of_bind, Eu, onode_of_bind.
+  assert (Hgo : (r0 ← lift (apply op u v None);; wrap r0) a = (r, a') →
+    r = Err EValue ∧ mgr a' = mgr a ∧ handles a' = handles a ∧ next_hid a' = next_hid a).
+  { unfold bind, lift. rewrite (apply_rejected (mgr a) op u v None) by tauto.
+    by intros [= <- <-]. }
+  destruct hv as [h|], v as [v|]; try done. cbn in Ev. by rewrite Ev.
 Qed.
